@@ -5,7 +5,7 @@
 //! observed through a recording OutputSink.  Bounded stand-in: never counted as a discharged obligation.
 use encoding_rs::*;
 use lol_html::html_content::ContentType;
-use lol_html::{comments, element, text, AsciiCompatibleEncoding, HtmlRewriter, OutputSink, Settings};
+use lol_html::{comments, element, streaming, text, AsciiCompatibleEncoding, HtmlRewriter, OutputSink, Settings};
 use std::cell::RefCell;
 use std::rc::Rc;
 
@@ -122,6 +122,47 @@ fn check_insert(enc: &'static Encoding, rep: &mut EncReport) {
     }
 }
 
+// streaming content handlers: UTF-8 written in arbitrary byte pieces (a character may be split between two writes; a dangling
+// incomplete sequence followed by other content becomes U+FFFD) must reach the sink as the document-encoding form of the text
+fn check_streaming(enc: &'static Encoding, rep: &mut EncReport) {
+    let text = "a\u{e9}\u{4e2d}\u{1f600}z";
+    let bytes = text.as_bytes();
+    for cut in 0..=bytes.len() {
+        for dangling in [false, true] {
+            // dangling: the first write ends inside a character and is followed by write_str (=> U+FFFD), else the second write completes it
+            let first: Vec<u8> = bytes[..cut].to_vec();
+            let second: Vec<u8> = bytes[cut..].to_vec();
+            let incomplete = std::str::from_utf8(&first).is_err();
+            if dangling && !incomplete { continue; }
+            let out = Rc::new(RefCell::new(vec![]));
+            let o2 = out.clone();
+            let (f2, s2) = (first.clone(), second.clone());
+            let settings = Settings::new().with_encoding(AsciiCompatibleEncoding::new(enc).unwrap()).with_adjust_charset_on_meta_tag(false)
+                .append_element_content_handler(element!("p", move |el| {
+                    let (f3, s3) = (f2.clone(), s2.clone());
+                    el.streaming_append(streaming!(move |sink| {
+                        sink.write_utf8_chunk(&f3, ContentType::Text)?;
+                        if dangling { sink.write_str("cd", ContentType::Text); } else { sink.write_utf8_chunk(&s3, ContentType::Text)?; }
+                        Ok(())
+                    }));
+                    Ok(())
+                }));
+            let ok = { let mut rw = HtmlRewriter::new(settings, move |c: &[u8]| o2.borrow_mut().extend_from_slice(c)); rw.write(b"<p></p>").is_ok() && rw.end().is_ok() };
+            rep.cases += 1;
+            let want_text: String = if dangling {
+                let valid = std::str::from_utf8(&first).err().map(|e| e.valid_up_to()).unwrap_or(first.len());
+                format!("{}\u{fffd}cd", std::str::from_utf8(&first[..valid]).unwrap())
+            } else { text.to_string() };
+            let mut want = b"<p>".to_vec();
+            want.extend_from_slice(&enc.encode(&want_text).0);
+            want.extend_from_slice(b"</p>");
+            if !ok || *out.borrow() != want {
+                rep.fail("content written by a streaming handler is not the document-encoding form of the text", enc, &first, Some(cut), format!("dangling: {dangling}, out {:?} want {:?}", out.borrow(), want));
+            }
+        }
+    }
+}
+
 struct RecSink { ev: Rc<RefCell<Vec<(String, Vec<u8>)>>> }
 impl OutputSink for RecSink {
     fn handle_chunk(&mut self, chunk: &[u8]) { self.ev.borrow_mut().push(("chunk".into(), chunk.to_vec())); }
@@ -187,6 +228,7 @@ pub fn run_c13(max_len: usize) -> EncReport {
             check_payload_long(enc, &long, &mut rep);
         }
         check_insert(enc, &mut rep);
+        check_streaming(enc, &mut rep);
     }
     check_meta(&mut rep);
     rep
